@@ -730,6 +730,10 @@ def openmode_obs():
                functions=['handle_read (cmdline/handle.c)'], note='block size 8: every file content, valid length 1..8, position, chunking of the reads (0..8 bytes each), failing read, end of file, valid size of the handle; pread / bw_limit / advise_read / file_block_size by stub'),
             Ob('handle.write', O, 'h_handle_write', inject=[OPEN_NOATIME, ADVISE_FLAGS, CHECK_PARITY], unwind=10, small_path=True, timeout=900, mem=6, cost=3, replay=False,
                functions=['handle_write (cmdline/handle.c)'], note='block size 8: every valid length, position, short write; pwrite / advise_write / file_block_size by stub'),
+            Ob('handle.utime', O, 'h_handle_utime', inject=[OPEN_NOATIME, ADVISE_FLAGS, CHECK_PARITY], unwind=10, small_path=True, timeout=600, mem=6, cost=2, replay=False,
+               functions=['handle_utime (cmdline/handle.c)'], note='every recorded time (64-bit seconds, nanoseconds), open / closed handle, fmtime outcome'),
+            Ob('handle.create', O, 'h_handle_create', inject=[OPEN_NOATIME, ADVISE_FLAGS, CHECK_PARITY], unwind=10, small_path=True, timeout=600, mem=6, cost=3, replay=False,
+               functions=['handle_create (cmdline/handle.c)'], note='every outcome / errno of the successive open calls, of mkancestor and of the rename of a .unrecoverable copy; every advise mode'),
             Ob('parity.create.sizes', O, 'h_parity_create', inject=[OPEN_NOATIME, ADVISE_FLAGS, CHECK_PARITY], unwind=10, small_path=True, timeout=900, mem=6, cost=6, replay=False,
                functions=['parity_create (cmdline/parity.c)'], note='0..8 splits, every recorded / real size per split, every outcome of open / fstat / advise; no O_TRUNC / O_APPEND'),
             Ob('check.parity_open.region', O, 'h_check_parity', inject=[OPEN_NOATIME, ADVISE_FLAGS, CHECK_PARITY], unwind=8, small_path=True, timeout=900, mem=6, cost=5, replay=False,
@@ -773,7 +777,7 @@ def c06(tier, seed):
 
 
 def c05(tier, seed):
-    return check_obs(tier) + import_obs() + search_obs() + writeback_obs() + filepost_obs() + [o for o in openmode_obs() if o.name in ('handle.read', 'handle.write')] + scanalloc_obs() + links_obs()
+    return check_obs(tier) + import_obs() + search_obs() + writeback_obs() + filepost_obs() + [o for o in openmode_obs() if o.name in ('handle.read', 'handle.write', 'handle.utime', 'handle.create')] + scanalloc_obs() + links_obs()
 
 
 def import_obs():
@@ -1122,7 +1126,7 @@ def c04(tier, seed):
 def c01(tier, seed):
     c03 = [o for o in PROPS['C03']['obligations'](tier, seed) if o.name.startswith(('rec.', 'mds.'))]
     # check.repair_step takes ~10 minutes: in the quick tier it runs under C05 only
-    fixside = writeback_obs() + filepost_obs() + links_obs() + [o for o in openmode_obs() if o.name in ('handle.read', 'handle.write')]
+    fixside = writeback_obs() + filepost_obs() + links_obs() + [o for o in openmode_obs() if o.name in ('handle.read', 'handle.write', 'handle.utime', 'handle.create')]
     return c03 + [o for o in check_obs(tier) if tier == 'thorough' or o.name != 'check.repair_step'] + elem_obs(tier) + fixside
 
 
